@@ -125,14 +125,12 @@ def observe (st : St) (z : Sizes) : Json :=
 def getD {α : Type} (l : List α) (i : Nat) (d : α) : α := l.getD i d
 
 def runCase (j : Json) : Except String Json := do
-  -- pool surfaces: [num, shape, transform id | null]; the first `file_surfaces` are in the file
+  -- pool surfaces: [num, shape, transform id | null] (the shape only matters for the text of the file); the first `file_surfaces` are in the file
   let surfs ← (← j.getObjVal? "surfaces").getArr?
   let snums ← surfs.toList.mapM (fun s => do (← arrAt s 0).getInt?)
-  let sshapes ← surfs.toList.mapM (fun s => do natOf (← arrAt s 1))
   let strans ← surfs.toList.mapM (fun s => do optNatOf (← arrAt s 2))
   let mats ← (← j.getObjVal? "materials").getArr?
   let mnums ← mats.toList.mapM (fun s => do (← arrAt s 0).getInt?)
-  let mshapes ← mats.toList.mapM (fun s => do natOf (← arrAt s 1))
   let tnums ← (← (← j.getObjVal? "transforms").getArr?).toList.mapM (·.getInt?)
   let freshU ← (← (← j.getObjVal? "universes").getArr?).toList.mapM (·.getInt?)
   let freshC ← (← (← j.getObjVal? "fresh_cells").getArr?).toList.mapM (·.getInt?)
@@ -147,7 +145,7 @@ def runCase (j : Json) : Except String Json := do
   let ops ← (← (← j.getObjVal? "ops").getArr?).toList.mapM parseOp
   let cnums := pcs.map (·.num) ++ freshC
   let st0 := St.blank (fun o => getD cnums o 0) (fun o => getD snums o 0) (fun o => getD mnums o 0) (fun _ => 0)
-    (fun o => getD tnums o 0) (fun o => getD sshapes o 0) (fun o => getD mshapes o 0) (fun o => getD strans o none)
+    (fun o => getD tnums o 0) (fun o => getD strans o none)
   let ((st1, e), nu) := load st0 pcs nSurfFile nMatFile nTransFile 0
   match e with
   | some err => return Json.mkObj [("load", errName err)]
